@@ -1,0 +1,14 @@
+//go:build verif
+
+package pipe
+
+// Contracts for govc (contract-based deductive verification, see /verif/DESIGN.md).
+// This file contains comments only; it is compiled only with the build tag `verif`.
+
+//@ arith bv
+//@ property C14
+//
+//@ func NormalizeSlotIndex
+//@   requires slotSize > 0
+//@   ensures #range 0 <= result && result < slotSize
+//@   modifies
